@@ -42,6 +42,54 @@ class Fn:
         return 'Fn(%r)' % (self.v,)
 
 
+class MarkedStr(str):
+    """A text value of a str SUBCLASS: carries an attribute and its own upper()."""
+    __allow_access_to_unprotected_subobjects__ = 1
+
+    def __new__(cls, v='', mark=''):
+        s = str.__new__(cls, v)
+        s.mark = mark
+        return s
+
+    def __getnewargs__(self):
+        return (str.__str__(self), self.mark)
+
+    def upper(self):
+        return 'UP(%s)' % str.upper(self)
+
+
+class Renders:
+    """A value that is rendered with the namespace when it is looked up by name."""
+    __allow_access_to_unprotected_subobjects__ = 1
+
+    def __init__(self, n):
+        self.n = n
+
+    def __render_with_namespace__(self, md):
+        return 'RN%s[x=%s]' % (self.n, md['x'])
+
+    def __repr__(self):
+        return 'Renders(%r)' % (self.n,)
+
+
+def cmp_asc(a, b):
+    return (a > b) - (a < b)
+
+
+def cmp_desc(a, b):
+    return (b > a) - (b < a)
+
+
+def cmp_len(a, b):
+    return (len(str(a)) - len(str(b))) or cmp_asc(str(a), str(b))
+
+
+def _doc(i, tag):
+    """A sub-template the tree tag calls for its header / footer / leaves (differs per namespace)."""
+    return HTML('<dtml-var standard_html_header>[%s%d x=<dtml-var x> id=<dtml-var id missing=noid>]'
+                '<dtml-var standard_html_footer>' % (tag, i))
+
+
 class Node:
     """Tree node whose tpValues() hands out a copy of its child list."""
 
@@ -146,6 +194,10 @@ def fingerprint(root):
         if isinstance(o, (types.FunctionType, types.BuiltinFunctionType, type)):
             return ('callable', getattr(o, '__qualname__', repr(o)))
         d = getattr(o, '__dict__', None)
+        for base in (str, bytes, int, float):
+            if isinstance(o, base):        # subclass of a scalar: its plain value counts too
+                return ('sub', t.__name__, base.__name__, base(o) if base is not str else str.__str__(o),
+                        fpitems((d or {}).items()))
         if d is not None:
             skip = getattr(o, '_fp_skip', ())
             return ('obj', t.__name__, fpitems((k, v) for k, v in d.items() if k not in skip))
@@ -268,6 +320,20 @@ VAL = {
     'URL': lambda i: 'http://host/p%d/doc' % i,
     'RESPONSE': lambda i: Resp(),
     'tree-e': lambda i: pick(i, ABSENT, _tree_e(2), ABSENT),
+    # names that OPTION VALUES refer to: comparison functions of sort="key/function", the documents of the tree
+    # tag's header= / footer= / leaves=, the query string the batch links are made from
+    'cmpf': lambda i: pick(i, cmp_asc, cmp_desc, cmp_len),
+    'cmpg': lambda i: pick(i, cmp_desc, cmp_len, ABSENT),
+    'hdr': lambda i: _doc(i, 'H'),
+    'ftr': lambda i: pick(i, _doc(1, 'F'), ABSENT, _doc(3, 'F')),
+    'lv': lambda i: pick(i, ABSENT, _doc(2, 'L'), _doc(3, 'L')),
+    'QUERY_STRING': lambda i: pick(i, 'a=1&st=3&b=2', ABSENT, 'st=1&z=9'),
+    # one name, values of different TYPES from render to render
+    # ns1: valid in iso-8859-15 only; ns2: ASCII; ns3: valid in both encodings, but another text in each
+    'bl9': lambda i: pick(i, 'Zo\xeb \u20ac<'.encode('iso-8859-15'), b'plain<', 'na\xefve \u0153'.encode('utf-8')),
+    'poly': lambda i: pick(i, 7, 'seven<&', Fn('fn<7')),
+    'polyseq': lambda i: pick(i, [3, 1, 2], ('b', 'a', 'c'), [('k2', 'v2'), ('k1', 'v1')]),
+    'polyobj': lambda i: pick(i, Item(name='pname', x='px'), {'name': 'dn'}, Item(name=Fn('called-name'))),
     'expand_all': lambda i: pick(i, ABSENT, ABSENT, 1),
 }
 
@@ -362,7 +428,61 @@ def defaults_sub(j):
     return None, {'sub': HTML('[dsub2 y=<dtml-var y>' + MK('dsub', 2) + ']'), 'y': 55}
 
 
-DEFAULTS = {'plain': defaults_plain, 'sub': defaults_sub}
+def defaults_special(j):
+    """Defaults of special value types that can be pickled: a str subclass, bytes, an object rendered with the
+    namespace, a callable, None, a float, a tuple, a nested mapping."""
+    if j == 1:
+        return {'ms': MarkedStr('m<s', 'MK1'), 'rn': Renders(1)}, \
+               {'bd': 'Zo\xeb<'.encode('utf-8'), 'dfn': Fn('dfn1'), 'nn': None, 'fl': 2.5,
+                'tp': (1, 'a', None), 'dd': {'q': MarkedStr('qq', 'Q1'), 'b': b'in<ner'}}
+    return {'ms': MarkedStr('M2&', 'MK2'), 'bd': b'plain bytes'}, \
+           {'rn': Renders(2), 'dfn': Fn('dfn2'), 'nn': 0, 'fl': -0.125, 'tp': ('z', 2), 'dd': {'q': 'plainq', 'b': b''}}
+
+
+def defaults_tainted(j):
+    """Defaults that are tainted (request-derived) values; such a value refuses to be pickled or deep-copied
+    itself, so of the persistence operations only a shallow copy / a transfer of the state is possible."""
+    from AccessControl.tainted import TaintedString
+    if j == 1:
+        return {'tx': TaintedString('a<b>c'), 'plain': 'p<1>'}, \
+               {'tv': TaintedString('<script>v</script>'), 'tl': [TaintedString('<i>'), 'j']}
+    return {'tv': TaintedString('T<2>')}, {'tx': TaintedString('second & <tx>'), 'plain': 'p2', 'tl': ['k', TaintedString('<l>')]}
+
+
+def defaults_tainted_flat(j):
+    """Tainted defaults at the top level only, next to a plain list."""
+    mapping, kw = defaults_tainted(j)
+    kw['tl'] = ['k%d' % j, 'plain<%d>' % j]
+    return mapping, kw
+
+
+def vars_special(j):
+    """Variables set with var() after construction (same names in both sets)."""
+    return {'v1': MarkedStr('var<%d' % j, 'V%d' % j), 'x': 'var-x%d' % j, 'vb': ('vb%d<' % j).encode('ascii')}
+
+
+def vars_tainted(j):
+    from AccessControl.tainted import TaintedString
+    return {'v1': TaintedString('<v%d>' % j), 's': 'var-s%d' % j}
+
+
+def defaults_latin(j):
+    """A constructor argument other than source and defaults: the template's encoding (here not the default one),
+    with a byte-string default in that encoding.  (Used only where munge leaves the defaults alone.)"""
+    return {'dl9': 'd\xe9f \u20ac'.encode('iso-8859-15')}, {'encoding': 'iso-8859-15', 'dtext': 'd\xe9f'}
+
+
+def defaults_utf8_twin(j):
+    """For the twins of the 'latin' templates: the very same source text, but the default encoding (given
+    explicitly) and other defaults."""
+    return {'dl9': 'twin d\xe9f \u20ac'.encode('utf-8')}, {'encoding': 'utf-8', 'dtext': 'twin-d\xe9f'}
+
+
+DEFAULTS = {'plain': defaults_plain, 'sub': defaults_sub, 'special': defaults_special, 'tainted': defaults_tainted,
+            'tainted_flat': defaults_tainted_flat, 'latin': defaults_latin, 'utf8_twin': defaults_utf8_twin}
+VARS = {'special': vars_special, 'tainted': vars_tainted, 'tainted_flat': vars_tainted}
+# families whose defaults are of special value types (evidence counters)
+SPECIAL_DEFAULTS = {'special': 'special', 'tainted': 'tainted', 'tainted_flat': 'tainted'}
 
 ROW = '<dtml-var a>/<dtml-var b>/<dtml-var c>;'
 BATCHV = ('[<dtml-var sequence-number>:<dtml-var c>:<dtml-var previous-sequence>:<dtml-var next-sequence>:'
@@ -528,6 +648,57 @@ _T = [
      ['bs', 'nums', 'd', 'x', 'opt'], None, 0),
     ('bytes_values_epfs', 'String', '%(bs)s, welcome %(bs html_quote)s|%(in nums)[%(bs)s;%(in nums)]', 'x %(bs)s y',
      ['bs', 'nums'], None, 0),
+    # OPTION VALUES THAT NAME NAMESPACE ENTRIES: the option text is constant, what the name is bound to is not
+    ('in_sort_func', 'HTML',
+     '<dtml-in seq mapping sort="c/cmpf">' + ROW + '</dtml-in>|<dtml-in words sort="/cmpf"><dtml-var sequence-item> </dtml-in>',
+     '<dtml-in objs sort="b/cmpf/desc,a/cmpg" size=3>' + ROW + '</dtml-in>|<dtml-in seq mapping sort="g/cmpg,b/cmpf/desc,a/nocase"><dtml-var c> </dtml-in>',
+     ['seq', 'objs', 'words', 'cmpf', 'cmpg'], None, 0),
+    ('in_sort_func_epfs', 'String',
+     '%(in seq mapping sort="c/cmpf")[%(c)s %(in seq)]|%(in nums sort="/cmpf/desc")[%(sequence-item)s,%(in nums)]',
+     '%(in objs sort="g/nocase,b/cmpf" reverse)[%(b)s %(in objs)]', ['seq', 'objs', 'nums', 'cmpf'], None, 0),
+    ('in_query', 'HTML',
+     '<dtml-in seq mapping size=2 start=st><dtml-var sequence-query>;</dtml-in>|'
+     '<dtml-in seq mapping size=2 start=st previous><dtml-var previous-sequence-start-number>:<dtml-var sequence-query><dtml-else>noprev</dtml-in>',
+     '<dtml-in objs size=sz start=st next><dtml-var sequence-query>:<dtml-var next-sequence-start-number><dtml-else>nonext</dtml-in>'
+     '|<dtml-in nums size=1 start=sz><dtml-var sequence-query></dtml-in>',
+     ['seq', 'objs', 'nums', 'st', 'sz', 'QUERY_STRING'], None, 0),
+    ('tree_docs', 'HTML', '<dtml-tree root header=hdr footer=ftr><dtml-var id></dtml-tree>',
+     '<dtml-tree root leaves=lv footer=hdr reverse><dtml-var id></dtml-tree>',
+     ['root', 'URL', 'RESPONSE', 'tree-e', 'expand_all', 'hdr', 'ftr', 'lv', 'x'], None, 0),
+    # one name bound to values of different types from render to render
+    ('poly', 'HTML',
+     '<dtml-var poly>|<dtml-var poly html_quote>|<dtml-if poly>T<dtml-else>F</dtml-if>|<dtml-in polyseq><dtml-var sequence-item>,</dtml-in>|<dtml-var "poly">',
+     '<dtml-in polyseq sort><dtml-var sequence-item>;</dtml-in><dtml-let p=poly><dtml-var p size=4></dtml-let>|<dtml-with polyobj><dtml-var name></dtml-with>',
+     ['poly', 'polyseq', 'polyobj'], None, 0),
+    # DEFAULTS / VARIABLES OF SPECIAL VALUE TYPES: a restored or copied template must hold the very same kinds of values
+    ('defaults_special', 'HTML',
+     '<dtml-var ms>|<dtml-var ms upper>|<dtml-var "ms.mark">|<dtml-var rn>|<dtml-var bd>|&dtml-bd;|<dtml-var dfn>|<dtml-var nn null=NIL>|'
+     '<dtml-var fl fmt="%.3f">|<dtml-in tp><dtml-var sequence-item null=->,</dtml-in>|<dtml-with dd mapping><dtml-var q upper>/<dtml-var b></dtml-with>|'
+     '<dtml-var v1>|<dtml-var "v1.mark">|<dtml-var x>|<dtml-var vb>',
+     '<dtml-var "ms.mark + ms">|<dtml-var rn html_quote>|<dtml-var bd upper>|<dtml-var "dfn(1)">|<dtml-var nn>|<dtml-var "_.len(tp)">|'
+     '<dtml-var v1 upper>|<dtml-var vb html_quote>|<dtml-let y=x><dtml-var y></dtml-let>',
+     ['x', 's'], 'special', 1),
+    ('defaults_special_epfs', 'String', '%(ms)s|%(ms upper)s|%(rn)s|%(bd)s|%(dfn)s|%(fl).1f|%(v1)s|%(vb html_quote)s|%(x)s',
+     '%(in tp)[%(sequence-item)s.%(in tp)]%(with dd mapping)[%(q)s%(with dd)]%(v1 upper)s', ['x'], 'special', 0),
+    ('defaults_tainted', 'HTML',
+     '<dtml-var tx>|&dtml-tx;|<dtml-var tx upper>|<dtml-var "tx">|<dtml-var tv>|<dtml-var plain>|<dtml-var x>|<dtml-var v1>|<dtml-var s>',
+     '<dtml-var tx size=5>|<dtml-var tx html_quote>|<dtml-let q=tx><dtml-var q></dtml-let>|<dtml-in tl><dtml-var sequence-item>,</dtml-in>|'
+     '&dtml.upper-v1;|<dtml-var "v1">|<dtml-var tv url_quote>',
+     ['x', 's'], 'tainted', 1),
+    ('defaults_tainted_epfs', 'String', '%(tx)s|%(tx html_quote)s|%(tx)8s|%(tv)s|%(v1)s|%(s)s',
+     '%(tv upper)s|%(in tl)[%(sequence-item)s;%(in tl)]%(v1 lower)s', ['x', 's'], 'tainted_flat', 0),
+    # a template built with a non-default encoding: byte strings are decoded with it, also after a restore
+    ('encoding_latin', 'HTML',
+     '<dtml-var bl9>|<dtml-var bl9 html_quote>|&dtml-bl9;|<dtml-in nums><dtml-var bl9>;</dtml-in><dtml-var dtext>|<dtml-var dl9>',
+     '<dtml-with d mapping>[<dtml-var bl9>]</dtml-with><dtml-let z=x>(<dtml-var dl9 upper>)</dtml-let><dtml-try><dtml-var opt><dtml-except>{<dtml-var bl9>}</dtml-try>',
+     ['bl9', 'nums', 'd', 'x', 'opt'], 'latin', 0),
+    ('encoding_latin_epfs', 'String', '%(bl9)s|%(bl9 html_quote)s|%(dl9)s|%(in nums)[%(bl9)s;%(in nums)]', 'x %(dl9)s %(bl9)s y',
+     ['bl9', 'nums'], 'latin', 0),
+    # TWINS: other templates of the same class with the SAME source text (same markers) but another encoding and other
+    # defaults, living in the same process; each must render as it does when it is alone in a process (their pristine
+    # reference comes from a child interpreter that builds no 'latin' template)
+    ('encoding_utf8_twin', 'HTML', None, None, ['bl9', 'nums', 'd', 'x', 'opt'], 'utf8_twin', 0, 'encoding_latin'),
+    ('encoding_utf8_twin_epfs', 'String', None, None, ['bl9', 'nums'], 'utf8_twin', 0, 'encoding_latin_epfs'),
     ('skip_unauthorized', 'RefusingHTML',
      '<dtml-tree rootown skip_unauthorized><dtml-var id></dtml-tree>|<dtml-in objs skip_unauthorized><dtml-var c>,</dtml-in>',
      '<dtml-tree rootown skip_unauthorized sort=id reverse><dtml-var id></dtml-tree>|<dtml-in objs skip_unauthorized size=3 start=st><dtml-var c>,</dtml-in>'
@@ -548,10 +719,15 @@ _T = [
 
 
 class Spec:
-    def __init__(self, name, cls, src1, src2, keys, defaults, munge_defaults):
+    def __init__(self, name, cls, src1, src2, keys, defaults, munge_defaults, twin_of=None):
         self.name = name
         self.cls = cls
-        self.markers = {1: MK(name, 1), 2: MK(name, 2)}
+        self.twin_of = twin_of
+        if twin_of:                      # the same source text, marker included, as an earlier catalogue entry
+            first = [t for t in _T if t[0] == twin_of][0]
+            assert first[1] == cls
+            src1, src2 = first[2], first[3]
+        self.markers = {1: MK(twin_of or name, 1), 2: MK(twin_of or name, 2)}
         self.src = {0: '', 1: src1 + self.markers[1], 2: src2 + self.markers[2]}      # 0: the empty source
         self.keys = keys
         self.defaults = defaults
@@ -571,8 +747,31 @@ def construct(spec, src_idx, def_idx):
     source = spec.paths[src_idx] if spec.is_file else spec.src[src_idx]
     if spec.defaults:
         mapping, kw = DEFAULTS[spec.defaults](def_idx)
-        return cls(source, mapping, **kw), mapping
+        t = cls(source, mapping, **kw)
+        set_vars(t, spec, def_idx)
+        return t, mapping
     return cls(source), None
+
+
+def set_vars(t, spec, def_idx):
+    """The variables (var()) that go with defaults set def_idx, for the families that have some."""
+    if spec.defaults in VARS:
+        t.var(**VARS[spec.defaults](def_idx))
+
+
+def own_refusal(t, operation):
+    """(type name, message) of the exception `operation` raises when applied to one of the template's default /
+    variable values ON ITS OWN, or None when every value accepts it.  A template cannot be asked to pickle or
+    deep-copy a value that itself refuses to be."""
+    for holder in (getattr(t, 'globals', None), getattr(t, '_vars', None)):
+        if not isinstance(holder, dict):
+            continue
+        for k in sorted(holder, key=repr):
+            try:
+                operation(holder[k])
+            except Exception as e:
+                return type(e).__name__, str(e)
+    return None
 
 
 # ------------------------------------------------------------------ shared-state write log
@@ -681,6 +880,47 @@ def scan_pickle(data, spec, src_idx):
     return problems, new
 
 
+def scan_state(state, new, spec):
+    """Problems in the state a template hands out for copying (None: not seen, copy.copy took it) and in the
+    copy made from it: no volatile (_v_) entries, and for a file template none of the files' content."""
+    problems = []
+    if state is not None and not isinstance(state, dict):
+        problems.append('__getstate__ returned a %s, not a dict' % type(state).__name__)
+        state = None
+    for what, d in (('state', state), ('copy', getattr(new, '__dict__', None))):
+        if d is None:
+            continue
+        for k in d:
+            if str(k)[:3] == '_v_':
+                problems.append('%s made for copying carries the volatile attribute %s' % (what, k))
+        if spec.is_file:
+            seen = set()
+            found = set()
+
+            def walk(o):
+                if isinstance(o, (str, bytes)):
+                    for j in (1, 2):
+                        m = spec.markers[j]
+                        if (m if isinstance(o, str) else m.encode('ascii')) in o:
+                            found.add(j)
+                    return
+                if id(o) in seen or type(o) in _SCALARS:
+                    return
+                seen.add(id(o))
+                if isinstance(o, dict):
+                    for v in o.values():
+                        walk(v)
+                elif isinstance(o, (list, tuple)):
+                    for v in o:
+                        walk(v)
+                elif hasattr(o, '__dict__'):
+                    walk(o.__dict__)
+            walk(d)
+            for j in sorted(found):
+                problems.append('%s of a file template contains the content marker of file %d' % (what, j))
+    return problems
+
+
 # ------------------------------------------------------------------ pristine reference children
 def normal_call(t, world, args):
     """One call of a template, normalised to a comparable tuple."""
@@ -709,9 +949,11 @@ def make_files(tmpdir):
                 spec.paths[j] = p
 
 
-def reference_table(i):
+def reference_table(i, twins=False):
     """Results of every (template, source, defaults) on namespace i, each from a new template, in
-    an interpreter that has never rendered anything with another namespace."""
+    an interpreter that has never rendered anything with another namespace.  The twins (same source text as
+    another catalogue entry) are left out, or with twins=True are the only ones built: a reference interpreter
+    never holds two templates with the same source."""
     import shutil
     import tempfile
     tmpdir = tempfile.mkdtemp(prefix='c17-ref-')
@@ -719,6 +961,8 @@ def reference_table(i):
     try:
         make_files(tmpdir)
         for spec in SPECS:
+            if bool(spec.twin_of) != bool(twins):
+                continue
             for src_idx in (1, 2):
                 for def_idx in ((1, 2) if spec.munge_defaults else (1,)):
                     t, _ = construct(spec, src_idx, def_idx)
@@ -732,4 +976,4 @@ def reference_table(i):
 if __name__ == '__main__':
     import json
     import sys
-    json.dump(reference_table(int(sys.argv[1])), sys.stdout)
+    json.dump(reference_table(int(sys.argv[1]), sys.argv[2:3] == ['twins']), sys.stdout)
